@@ -26,7 +26,7 @@ class C04(CoreProp):
     judge_module = "Run.Judge_C04"
     prop_module = "Props.C04"
     prop_file = "Props/C04.v"
-    coq_targets = ["Props/C04.vo", "Run/Judge_C04.vo"]
+    coq_targets = ["Props/C04.vo", "Run/Judge_C04.vo", "Props/Tables.vo"]
     sizes = {"quick": 500, "thorough": 20000}
     design_ref = "DESIGN.md section 6/C04"
     keep_datas = True
